@@ -78,11 +78,22 @@ class Cache:
         of things that are convertable to strings.
         """
         if isinstance(arg, np.ndarray):
-            self.ahash.update(arg.view(np.uint8))
+            # Include data type and shape (arrays with identical raw
+            # data are otherwise indistinguishable); also support
+            # non-contiguous arrays.
+            self.ahash.update(
+                f"ndarray:{arg.dtype.str}:{arg.shape}:".encode("utf-8"))
+            self.ahash.update(np.ascontiguousarray(arg).view(np.uint8))
         elif isinstance(arg, list):
+            self.ahash.update(f"list:{len(arg)}:".encode("utf-8"))
             [self._update_hash(a) for a in arg]
         else:
-            self.ahash.update(str(arg).encode('utf-8'))
+            # Include type and length, so that consecutive arguments
+            # cannot be mistaken for one another (e.g. None and "None").
+            data = str(arg).encode("utf-8")
+            self.ahash.update(
+                f"{type(arg).__name__}:{len(data)}:".encode("utf-8"))
+            self.ahash.update(data)
 
     @staticmethod
     def clear_cache():
